@@ -289,7 +289,7 @@ pub struct SelCase {
 }
 fn sel_id(c: &SelCand) -> [u8; 32] {
     let mut b = [0x33u8; 32];
-    match c.shape % 3 {
+    match c.shape % 6 {
         0 => {
             b[0] = c.a;
             b[1] = c.b;
@@ -298,9 +298,25 @@ fn sel_id(c: &SelCand) -> [u8; 32] {
             b[16] = c.a;
             b[20] = c.b;
         }
-        _ => {
+        2 => {
             b[31] = c.a;
             b[30] = c.b & 1;
+        }
+        // ids that agree on the leading bytes and differ in the middle (where an f64 of the top half has run out of
+        // mantissa) and in the low half, the two halves ordered independently ...
+        3 => {
+            b[8 + (c.b as usize % 8)] = c.a;
+            b[24] = c.b;
+        }
+        // ... or deliberately the opposite way
+        4 => {
+            b[12] = c.a;
+            b[16] = !c.a;
+            b[31] = !c.a;
+        }
+        // any single byte
+        _ => {
+            b[c.b as usize % 32] = c.a;
         }
     }
     b
@@ -521,7 +537,7 @@ pub fn run(run: &Run) {
     let rtcase = prop::collection::vec(rtop, 1..run.tier.pick(60, 400)).prop_map(|ops| RtCase { ops });
     run.prop("routing", run.tier.pick(9000, 100000), sh, rtcase, run_routing);
 
-    let cand = (prop_oneof![1 => Just(0u8), 2 => Just(1u8), 3 => Just(2u8)], any::<u8>(), any::<u8>(), sel_trust()).prop_map(|(shape, a, b, trust)| SelCand { shape, a, b, trust });
+    let cand = (prop_oneof![1 => Just(0u8), 2 => Just(1u8), 3 => Just(2u8), 3 => Just(3u8), 3 => Just(4u8), 2 => Just(5u8)], any::<u8>(), any::<u8>(), sel_trust()).prop_map(|(shape, a, b, trust)| SelCand { shape, a, b, trust });
     let selcase = (any::<u8>(), prop::bool::weighted(0.3), prop::collection::vec(cand, 0..64), 0u8..=70, 0u8..4, 0u16..=1000, 0u16..=1000, any::<bool>()).prop_map(|(key_byte, key_zero, cands, count, cfg, w_milli, thr_milli, exclude)| SelCase { key_byte, key_zero, cands, count, cfg, w_milli, thr_milli, exclude });
     run.prop("selector", run.tier.pick(45000, 600000), sh, selcase, run_selector);
 
